@@ -27,6 +27,7 @@ from sim.adata import Events, make_async_data
 from sim.core import Outcome, digest, exc_key, scrub
 from sim.envs import CodeMemo, clear_process_caches
 from sim.tape import Tape
+from sim import workload as W
 from sim.workload import Gen, make_data_seed, snapshot
 
 ID = "C29"
@@ -95,6 +96,14 @@ class Cfg:
             bytecode_cache=CodeMemo(("c29", self.is_async, self.ae, self.lc)) if self.memo else None,
         )
         T.scan_replace_locks(e.cache) if e.cache is not None and not isinstance(e.cache, dict) else None
+        if self.is_async:
+            async def gf(x=0):
+                return W.f1(x) + 1
+        else:
+            def gf(x=0):
+                return W.f1(x) + 1
+        e.globals["gf"] = gf
+        e.globals["gn"] = 3
         return e
 
 
@@ -111,11 +120,15 @@ def _loop_factory():
     return A.SimLoop(_LOOP_TAPE[0])
 
 
+TG: dict = {}  # template-level globals of the current run: entry name -> value (fixed per name, as documented use)
+
+
 def _render(env, entry, api, data, tape):
     """One render through the chosen entry point -> comparable key."""
     _LOOP_TAPE[0] = tape
     try:
-        tmpl = env.get_template(entry)
+        tg = TG.get(entry)
+        tmpl = env.get_template(entry, globals={"tg": tg} if tg is not None else None)
         if api == 0:
             r = tmpl.render(data)
         elif api == 1:
@@ -128,7 +141,7 @@ def _render(env, entry, api, data, tape):
             if env.is_async:
                 r = tmpl.render(**data)
             else:
-                r = str(tmpl.module)
+                r = str(tmpl.make_module(data))
         return ("ok", scrub(r)), tmpl
     except T.SimAbort:
         raise
@@ -226,6 +239,7 @@ def run_history(tape, out, P, cfg):
     out.count("history_renders", sum(1 for o in ops if o[0] == "render"))
     out.decoded = {
         "kind": "history", "templates": P.templates, "tags": sorted(P.tags), "config": vars(cfg), "data_seeds": dseeds,
+        "template_globals": dict(TG),
         "ops": [list(o) if o[0] == "get" else ["render", o[1], SYNC_APIS[o[2]], f"data{o[3]}"] for o in ops],
         "results": results,
     }
@@ -344,6 +358,7 @@ def run_schedule(tape, out, P, cfg):
             out.count("preempt_region_" + regs[step - 1])
     dec = {
         "kind": "schedule", "templates": P.templates, "tags": sorted(P.tags), "config": vars(cfg), "cache_mode": warm,
+        "template_globals": dict(TG),
         "data_seeds": dseeds,
         "threads": [[[e, SYNC_APIS[a], f"data{di}"] for e, a, di in ops] for ops in progs],
         "plan(tid,local_step,target)": plan, "switch_trace": sched.trace[:60], "serial_horizons": horizons,
@@ -409,7 +424,14 @@ def run(tape: Tape) -> Outcome:
     cache_size = CACHE_SIZES[tape.draw(len(CACHE_SIZES))]
     tagged_ok = tape.draw(8) == 7
     size = 1 + tape.draw(4)
-    P = Gen(tape, is_async=is_async, loopcontrols=lc, size=size, allow_module_state=tagged_ok).generate()
+    P = Gen(tape, is_async=is_async, loopcontrols=lc, size=size, allow_module_state=tagged_ok,
+            env_globals=True, template_globals=True).generate()
+    TG.clear()
+    # only the top-level template gets template-level globals: a template that is also included /
+    # imported / extended elsewhere would (by documented design) keep them in the cache
+    v = tape.draw(4)
+    if v:
+        TG["main"] = v
     cfg = Cfg(is_async, ae, lc, cache_size, True)
     gc_was = gc.isenabled()
     gc.disable()
